@@ -103,6 +103,7 @@ extern struct vs_shared *vs_sh;
 void vs_init(void);
 // Clear trace, fault plan, ledger (fds, heap, children) and violations.
 void vs_reset(void);
+void vs_reset_light(void);
 // Trace on/off (ledger bookkeeping is always on).
 void vs_trace(int on);
 // DRY mode: a tiny fake kernel, nothing reaches the real one except memory
